@@ -58,7 +58,7 @@ class SkipRemoverSpec(Spec):
     def __init__(self, cfg, tier):
         super().__init__(cfg, tier)
         self.kind = cfg["kind"]
-        self.time_budget = 35 if tier == "quick" else 800
+        self.time_budget = 150 if tier == "quick" else 800
         if self.kind == "tagged":
             acts = [(1, m) for m in range(16)] + [(0, 0), (0, 15), (0, 5)]
         else:
